@@ -3,7 +3,8 @@
 // dispatcher.PushDispatcher on a queue.MemoryStore.  One ndjson event per execution.
 //
 //	hkv-egress run -rows rows.ndjson -out trace -shards 16 -per 3 -seed 1 -dispatch-every 11
-//	hkv-egress one -row '<json>' -variant 0 [-dispatch]
+//	hkv-egress one -row '<json>' -variant 0 [-dispatch|-prod]
+//	hkv-egress prod -rows rows.ndjson -out trace.prod -every 97 -seed 1   (production wiring, app.VerifBoot, one row at a time)
 package main
 
 import (
@@ -41,6 +42,8 @@ func main() {
 		err = run(os.Args[2:])
 	case "one":
 		err = one(os.Args[2:])
+	case "prod":
+		err = prod(os.Args[2:])
 	default:
 		err = fmt.Errorf("unknown command %q", os.Args[1])
 	}
@@ -275,6 +278,7 @@ func one(args []string) error {
 	seed := fs.Int64("seed", 1, "seed")
 	id := fs.Int("id", 0, "row index (for the random stream)")
 	disp := fs.Bool("dispatch", false, "run through the push dispatcher")
+	viaProd := fs.Bool("prod", false, "run through the production wiring (app.VerifBoot)")
 	out := fs.String("out", "", "trace output (default stdout)")
 	_ = fs.Parse(args)
 	row, err := c16.ParseRow([]byte(*rowJSON))
@@ -286,7 +290,10 @@ func one(args []string) error {
 		return err
 	}
 	ev := event{Ev: "Egress", ID: *id, Seed: *seed, Row: json.RawMessage(*rowJSON), Conc: conc}
-	if *disp {
+	if *viaProd {
+		ev.Mode = "prod"
+		ev.Obs, ev.Disp, err = c16.ExecProd(conc, os.TempDir(), os.Getpid())
+	} else if *disp {
 		ev.Mode = "dispatch"
 		ev.Obs, ev.Disp, err = c16.ExecDispatch(conc)
 	} else {
@@ -307,4 +314,76 @@ func one(args []string) error {
 		w = f
 	}
 	return json.NewEncoder(w).Encode(&ev)
+}
+
+// prod: a sample of the rows through the production wiring, sequentially (process globals are replaced)
+func prod(args []string) error {
+	fs := flag.NewFlagSet("prod", flag.ExitOnError)
+	rowsFile := fs.String("rows", "", "rows (ndjson)")
+	out := fs.String("out", "trace.prod", "trace output")
+	every := fs.Int("every", 97, "every k-th eligible row")
+	seed := fs.Int64("seed", 1, "seed")
+	scratch := fs.String("scratch", os.TempDir(), "scratch directory for generated configurations")
+	max := fs.Int("max", 0, "stop after this many executions (0 = no limit)")
+	_ = fs.Parse(args)
+	f, err := os.Open(*rowsFile)
+	if err != nil {
+		return err
+	}
+	defer f.Close()
+	of, err := os.Create(*out)
+	if err != nil {
+		return err
+	}
+	defer of.Close()
+	w := bufio.NewWriterSize(of, 1<<20)
+	defer w.Flush()
+	enc := json.NewEncoder(w)
+	sc := bufio.NewScanner(f)
+	sc.Buffer(make([]byte, 1<<20), 1<<26)
+	local := map[string]int{}
+	i, n := -1, 0
+	for sc.Scan() {
+		if len(sc.Bytes()) == 0 {
+			continue
+		}
+		i++
+		if (i+int(*seed)*13)%*every != 0 {
+			continue
+		}
+		line := append([]byte(nil), sc.Bytes()...)
+		row, err := c16.ParseRow(line)
+		if err != nil {
+			return fmt.Errorf("row %d: %w", i, err)
+		}
+		variant := i % 3
+		conc, err := c16.Concretise(row, variant, rngFor(*seed, i, variant))
+		if err != nil {
+			return err
+		}
+		if !c16.ProdEligible(row, conc) {
+			local["prod/not_eligible"]++
+			continue
+		}
+		obs, disp, err := c16.ExecProd(conc, *scratch, i)
+		if err != nil {
+			return fmt.Errorf("row %d (prod): %w", i, err)
+		}
+		ev := event{Ev: "Egress", ID: i, Seed: *seed, Row: line, Mode: "prod", Conc: conc, Obs: obs, Disp: disp}
+		if err := enc.Encode(&ev); err != nil {
+			return err
+		}
+		count(local, row, "prod", obs, disp)
+		local["prod/"+disp.State+"/"+disp.Reason]++
+		n++
+		if *max > 0 && n >= *max {
+			break
+		}
+	}
+	if err := sc.Err(); err != nil {
+		return err
+	}
+	b, _ := json.Marshal(map[string]any{"events": local["events"], "counters": local})
+	fmt.Println(string(b))
+	return nil
 }
